@@ -273,7 +273,11 @@ def check_base_classification(ctx, cf, rule):
     mention neither are explored both ways.  Specification: R -> remote-aware (the verdict flag is raised, or the inconsistency Warning); not R and K
     -> the base is skipped (pass-through); not R and not K -> the chain is blocked (the allow flag is lowered)."""
     loops = [n for n in walk_local(cf.node) if isinstance(n, ast.For) and '__mro__' in norm(n.iter)]
-    gs = [st for lp in loops for st in walk_local(lp) if isinstance(st, ast.If) and '__getstate__' in norm(st.test)]
+    def has_remote_test(st):
+        return any(isinstance(t, ast.Compare) and len(t.ops) == 1 and isinstance(t.ops[0], (ast.In, ast.NotIn)) and isinstance(t.left, ast.Constant) and t.left.value == 'remote'
+                   for t in ast.walk(st))
+    # the statement of the loop body that inspects the __getstate__ of one base: the outermost if of the loop body that contains the `remote` test
+    gs = [st for lp in loops for st in lp.body if isinstance(st, ast.If) and has_remote_test(st)]
     if not ctx.check(rule, 'the metaclass inspects the __getstate__ of every base of the MRO', bool(gs), cf.short, 'no-signature-inspection',
                      'the type check does not look at the __getstate__ of the bases', where=loc(cf, cf.node)):
         return
@@ -337,6 +341,39 @@ def check_base_classification(ctx, cf, rule):
             if not states:
                 break
         return outs, states
+    # what the `remote` test looks into is the complete parameter list of the __getstate__: keyword-only parameters included (the pickler passes
+    # remote= by keyword, so `def __getstate__(self, *, remote=False)` opts in like any other spelling)
+    n_tests = 0
+    for t in walk_local(gs[0]):
+        if isinstance(t, ast.Compare) and len(t.ops) == 1 and isinstance(t.ops[0], (ast.In, ast.NotIn)) and isinstance(t.left, ast.Constant) and t.left.value == 'remote':
+            n_tests += 1
+            coll = t.comparators[0]
+            srcs = [coll]
+            if isinstance(coll, ast.Name):
+                srcs = [st.value for st in walk_local(cf.node) if isinstance(st, ast.Assign) and any(is_name(tg, coll.id) for tg in st.targets)]
+            seen_names = set()
+            work = list(srcs)
+            texts = []
+            while work:
+                e = work.pop()
+                texts.append(norm(e))
+                for x in ast.walk(e):
+                    if isinstance(x, ast.Name) and x.id not in seen_names:
+                        seen_names.add(x.id)
+                        work += [st.value for st in walk_local(cf.node) if isinstance(st, ast.Assign) and any(is_name(tg, x.id) for tg in st.targets)]
+            def complete(txt_all, own):
+                if '.parameters' in own and 'signature' in txt_all:
+                    return True
+                return 'co_varnames' in own and 'co_kwonlyargcount' in own
+            bad = [norm(e) for e in srcs if not complete(' '.join(texts), ' '.join(norm(y) for y in [e] + [st.value for x in ast.walk(e) if isinstance(x, ast.Name)
+                                                                                                           for st in walk_local(cf.node) if isinstance(st, ast.Assign) and any(is_name(tg, x.id) for tg in st.targets)]))]
+            ctx.check(rule, 'the `remote` test looks into the complete parameter list of the __getstate__ (inspect.signature(...).parameters)', bool(srcs) and not bad, cf.short,
+                      'parameter-names-incomplete:' + (bad[0][:60] if bad else 'none'),
+                      f'the names the `remote` test looks into come from `{bad[0] if bad else "?"}`, which is not exactly the parameter list of the signature (a slice of co_varnames misses keyword-only parameters - `def __getstate__(self, *, remote=False)` '
+                      'silently drops out of the opt-in set - and the whole of co_varnames includes local variables - a plain __getstate__ with a local called remote is routed to the '
+                      'remote reducer and fails)',
+                      where=loc(cf, t))
+    ctx.floor('tests for a parameter named remote', n_tests, 1)
     spec = {(True, True): {'aware', 'warn'}, (True, False): {'aware', 'warn'}, (False, True): {'skip'}, (False, False): {'block'}}
     for (r, k), allowed in spec.items():
         outs, falls = run_block(body, {'R': r, 'K': k}, frozenset())
